@@ -69,8 +69,8 @@ theorem atomL_none_of_head (c : Char) (r : List Char) (h1 : c.isLower = false) (
     atomL (c :: r) = none := by
   have hs : lexSymbol (c :: r) = none := by
     unfold lexSymbol
-    have : startsNegation (c :: r) = false := by
-      unfold startsNegation
+    have : startsNotWord (c :: r) = false := by
+      unfold startsNotWord
       split
       · rename_i heq; injection heq with e _; exact absurd e h3
       · rfl
@@ -95,7 +95,7 @@ theorem termL_dot (f : Nat) (rest : List Char) : termL f ('.' :: rest) = none :=
       have hop : operand (f + 1) ('.' :: rest) = none := by
         refine operand_fail f _ (skip_cons_solid _ ⟨by decide, by decide⟩)
           (lexNegative_of_head _ ⟨by decide, by decide⟩ (by decide)) ?_ ?_ ?_
-        · simp [lexPre, stripPrefix, lexInteger, isNonzeroDigit, lexSymbol, startsNegation]
+        · simp [lexPre, stripPrefix, lexInteger, isNonzeroDigit, lexSymbol, startsNotWord, startsNegation]
         · simp [lexVariable]
         · intro r e; injection e with e1 _; exact absurd e1 (by decide)
       simp only [seqT, hop]
@@ -316,7 +316,7 @@ theorem ruleL_printL (r : Rule) (hr : r.WF) (rest : List Char) (hrest : ∀ r', 
 /-! ## programs -/
 
 theorem ruleL_nil : ruleL [] = none := by
-  simp [ruleL, ruleBodyL, headL, atomL, lexSymbol, startsNegation, stripPrefix, neckBodyL]
+  simp [ruleL, ruleBodyL, headL, atomL, lexSymbol, startsNotWord, startsNegation, stripPrefix, neckBodyL]
 
 theorem rulesL_printL : ∀ (p : Program), p.WF → ∀ (f : Nat), (progPrintL p).length < f →
     rulesL f (skip (progPrintL p)) = (p, []) := by
